@@ -257,10 +257,19 @@ func runSortCase(c sortCase) *core.Failure {
 		}
 		return nil
 	}
-	out := model.Observe(qf.Sort(toOrders(c.Orders)...))
+	sorted := qf.Sort(toOrders(c.Orders)...)
+	out := model.Observe(sorted)
 	out.AdoptMeta(c.Frame)
 	if f := checkSorted(in, out, c.Orders); f != nil {
 		return f
+	}
+	// the same through the views' Slice(): the sorted frame read that way must be ordered as well
+	if out2 := model.ObserveSlices(sorted); !out2.Err {
+		out2.AdoptMeta(c.Frame)
+		if f := checkSorted(in, out2, c.Orders); f != nil {
+			f.Msg = "read through View.Slice(): " + f.Msg
+			return f
+		}
 	}
 	if after := model.Observe(qf).String(); after != before {
 		return core.Failf("Sort changed its receiver:\nbefore: %s\nafter:  %s", before, after)
@@ -340,7 +349,8 @@ func c03KeyAlphabet(k model.Kind) []model.Cell {
 		return []model.Cell{model.B(false), model.B(true)}
 	case model.String:
 		// "", "a", "abc": each a proper prefix of the next, lengths differing by 1 and by 2+
-		return []model.Cell{model.S(""), model.S("a"), model.S("abc"), model.S("b"), model.Null()}
+		// "\u00e4" starts with a byte >= 0x80 (bytewise order puts it after all ASCII)
+		return []model.Cell{model.S(""), model.S("a"), model.S("abc"), model.S("b"), model.S("\u00e4"), model.Null()}
 	case model.Enum:
 		// declared order is the reverse of alphabetical
 		return []model.Cell{model.S("z"), model.S("m"), model.S("a"), model.Null()}
